@@ -42,6 +42,9 @@ type HistorySetup struct {
 	StateCbKill   bool      `json:"state_callback_kills,omitempty"`
 	StartHeight   int64     `json:"start_height,omitempty"`
 	ViaApp        bool      `json:"end_block_via_module_manager,omitempty"`
+	KillOthers    bool      `json:"state_callback_kills_others,omitempty"`
+	Ghost         bool      `json:"ghost_module_context,omitempty"`
+	BigFunds      []FundRec `json:"big_funds,omitempty"` // amounts beyond int64, funded before the first snapshot
 }
 
 type History struct {
@@ -206,6 +209,23 @@ func (r *Run) InstallModuleService(pricing string) {
 	r.hist.Setup.ModSvcPricing = pricing
 }
 
+func (r *Run) SetKillOthers(v bool) {
+	r.w.stateCbKillOthers = v
+	r.hist.Setup.KillOthers = v
+}
+
+// InstallGhost: a repeated, paused context of the module "ghostmod" (not wired in this
+// application), consumer = the given 20-byte account, on an existing or future service.
+func (r *Run) InstallGhost(consumer sdk.AccAddress, provider sdk.AccAddress) string {
+	id := append(sha256Sum("ghost-context"), make([]byte, 8)...)
+	rc := types.RequestContext{ServiceName: "sv", Providers: []sdk.AccAddress{provider}, Consumer: consumer, Input: goodInput,
+		ServiceFeeCap: coins(10), ModuleName: "ghostmod", Timeout: 2, Repeated: true, RepeatedFrequency: 2, RepeatedTotal: 3,
+		BatchState: types.BATCHCOMPLETED, State: types.PAUSED, ResponseThreshold: 1, BatchResponseThreshold: 1}
+	r.w.InstallGhostContext(id, rc)
+	r.hist.Setup.Ghost = true
+	return hexs(id)
+}
+
 func (r *Run) SetViaApp(v bool) {
 	r.w.viaApp = v
 	r.hist.Setup.ViaApp = v
@@ -304,11 +324,21 @@ func Replay(a *App, h *History, mon *Mon) *Run {
 			r.TrackOnly(f.Name, unhex(f.Addr))
 		}
 	}
+	for _, f := range h.Setup.BigFunds {
+		amt, _ := sdk.NewIntFromString(f.Amount)
+		r.w.Fund(f.Name, unhex(f.Addr), amt)
+		r.hist.Setup.BigFunds = append(r.hist.Setup.BigFunds, f)
+	}
 	if h.Setup.ModSvcPricing != "" {
 		r.InstallModuleService(h.Setup.ModSvcPricing)
 	}
 	r.SetStateCbKill(h.Setup.StateCbKill)
 	r.SetViaApp(h.Setup.ViaApp)
+	r.SetKillOthers(h.Setup.KillOthers)
+	if h.Setup.Ghost {
+		act := MakeActors()
+		r.InstallGhost(act.Consumers[0], act.SignProv[0])
+	}
 	r.Begin()
 	for _, st := range h.Steps {
 		switch st.Kind {
